@@ -128,11 +128,52 @@ class Ctx:
         p = subprocess.run(["go", "build", "-tags", "verif", "-o", out, "./cmd/obiverif"],
                            cwd=hdir, env=self.goenv(), capture_output=True, text=True, timeout=1500)
         if p.returncode != 0:
+            # the drivers of all the checks share one binary: a change of the repository's exported API may break the
+            # driver of ANOTHER check.  Build again with this check's own driver files and the files they need only.
+            p = self.build_own_drivers(hdir, out, p)
+        if p.returncode != 0:
             errs = [l for l in p.stderr.splitlines() if re.search(r"\.go:\d+:\d+:", l) and "warning" not in l and "note:" not in l]
             raise Inconclusive("harness build failed:\n" + ("\n".join(errs[:40]) or p.stderr[-4000:]))
         log("harness built in %.1fs" % (time.time() - t))
         self._harness = out
         return out
+
+    def build_own_drivers(self, hdir, out, first):
+        d = os.path.join(hdir, "cmd", "obiverif")
+        allf = sorted(f for f in os.listdir(d) if f.endswith(".go"))
+        num = self.pid[1:].lower()
+        own = [f for f in allf if re.match(r"p%s%s_" % ("x" if self.pid.startswith("X") else "", num), f)]
+        keep = set(own) | {"main.go", "common.go"}
+        if not own:
+            return first
+        side = os.path.join(hdir, "unused_drivers")
+        os.makedirs(side, exist_ok=True)
+        src = {f: open(os.path.join(d, f)).read() for f in allf}
+        p = first
+        for _ in range(12):
+            for f in allf:
+                a, b = os.path.join(d, f), os.path.join(side, f)
+                if f in keep and not os.path.exists(a):
+                    os.rename(b, a)
+                elif f not in keep and os.path.exists(a):
+                    os.rename(a, b)
+            p = subprocess.run(["go", "build", "-tags", "verif", "-o", out, "./cmd/obiverif"],
+                               cwd=hdir, env=self.goenv(), capture_output=True, text=True, timeout=1500)
+            if p.returncode == 0:
+                log("harness built from the driver files of %s only (%s): another driver no longer compiles against this tree"
+                    % (self.pid, ", ".join(sorted(keep))))
+                self.extra["harness_built_from"] = sorted(keep)
+                return p
+            missing = set(re.findall(r"undefined: (\w+)", p.stderr))
+            add = set()
+            for sym in missing:
+                for f in allf:
+                    if f not in keep and re.search(r"^(?:func|type|var|const) (?:\([^)]*\) )?%s\b|^\t%s\s.*=" % (sym, sym), src[f], re.M):
+                        add.add(f)
+            if not add:
+                return p
+            keep |= add
+        return p
 
     def build_cmds(self, names, tags="verif"):
         """Build command binaries of /repo (working tree) into scratch/bin."""
